@@ -15,7 +15,8 @@ from docx2python import iterators as it  # noqa: E402
 RULE = ("nested lists with integer leaves: all ragged trees with <= N list nodes enumerated "
         "exhaustively per depth 0..7 + random wide trees (indices >= 300); a case is non-trivial "
         "when the tree has >= 2 items at the requested depth or the depth is out of range; "
-        "distinct = distinct (tree, depth)")
+        "distinct = distinct (tree, depth); + lists with str leaves enumerated at depths that reach into the "
+        "strings (a str is a sequence of 1-character strs; the model sees the exploded list)")
 
 
 def all_trees(n_lists: int, max_depth: int):
@@ -138,6 +139,79 @@ def evaluate(state, arg):
     return res
 
 
+# ---- string leaves: a str is a sequence of 1-character strs (round-5 seed C20-enum-wraps-str-leaf) ----
+def _sid(x, table):
+    """strings -> integer ids (the model's leaves are integers)"""
+    if isinstance(x, str):
+        return table.setdefault(x, 1000 + len(table))
+    return [_sid(y, table) for y in x]
+
+
+def _explode(t, k, table):
+    """the nested list Python sees when it iterates k levels into t: a str above the requested
+    depth is the list of its characters (a 1-character str contains itself)"""
+    if k == 0:
+        return _sid(t, table)
+    if isinstance(t, str):
+        return [_explode(ch, k - 1, table) for ch in t]
+    return [_explode(x, k - 1, table) for x in t]
+
+
+def evaluate_strleaf(state, arg):
+    nested, depth = arg
+    before = copy.deepcopy(nested)
+    res = {"key": json.dumps([nested, depth]), "features": [f"depth={depth}", "str_leaves"], "fail": None, "corr": None}
+    table = {}
+    impl = impl_obs(nested, depth)
+    impl_enc = [[c, ([[a, _sid(x, table)] for a, x in v] if i == 0 else [_sid(x, table) for x in v]) if c == 0 else v]
+                for i, (c, v) in enumerate(impl)]
+    model = state["model"].run([2, depth, _explode(nested, depth, table)])
+    if model != impl_enc:
+        res["corr"] = {"input": [nested, depth], "impl": impl_enc, "model": model, "in_hyp": True}
+    try:
+        if nested != before:
+            res["fail"] = "argument modified"
+        else:
+            pairs = list(it.enum_at_depth(nested, depth))
+            want = items_at(nested, depth)
+            if [tuple(a) for a, _ in pairs] != [a for a, _ in want]:
+                res["fail"] = "addresses are not exactly the valid addresses (strings are sequences of characters)"
+            else:
+                for a, x in pairs:
+                    y = nested
+                    for i in a:
+                        y = y[i]
+                    if y != x or type(y) is not type(x):
+                        res["fail"] = f"index {a} gives {y!r}, the yielded item is {x!r}"
+                        break
+            items = list(it.iter_at_depth(nested, depth))
+            if res["fail"] is None and items != [x for _, x in pairs]:
+                res["fail"] = "iter_at_depth differs from enum_at_depth"
+            if len(pairs) >= 2:
+                res["features"].append("nontrivial")
+    except Exception as ex:  # noqa: BLE001
+        res["fail"] = f"oracle raised {type(ex).__name__}: {ex}"
+    if res["fail"]:
+        res["input"] = [nested, depth]
+    return res
+
+
+def gen_str_cases(tier: str, seed: int):
+    """lists whose leaves are strings, enumerated at depths that reach INTO the strings"""
+    rng = random.Random(seed + 2)
+    atoms = ["", "a", "ab", "abc", "é", "x y"]
+    out = []
+    for _ in range(120 if tier == "quick" else 4000):
+        levels = rng.randint(1, 4)
+
+        def build(level):
+            if level == levels:
+                return [rng.choice(atoms) for _ in range(rng.choice([0, 1, 2, 3]))]
+            return [build(level + 1) for _ in range(rng.choice([0, 1, 2, 3]))]
+        out.append((build(1), rng.randint(1, 5)))
+    return out
+
+
 def evaluate_html_map(state, arg):
     tables = arg  # 5-deep list of strings
     before = copy.deepcopy(tables)
@@ -235,6 +309,7 @@ def run(ctx):
                 "violations": [], "corr_broken": []}
     results = engine.sweep("props.C20", "evaluate", cases, chunksize=64)
     results += engine.sweep("props.C20", "evaluate_html_map", hcases, chunksize=16)
+    results += engine.sweep("props.C20", "evaluate_strleaf", gen_str_cases(ctx["tier"], ctx["seed"]), chunksize=16)
     return summarise(results, ctx)
 
 
@@ -298,7 +373,12 @@ def replay(ctx, path):
     if inp is None:
         print("replay file names no input:", data.get("note"))
         return 1
-    r = evaluate(state, tuple(inp)) if len(inp) == 2 and isinstance(inp[1], int) else evaluate_html_map(state, inp)
+    def has_str(t):
+        return isinstance(t, str) or (isinstance(t, list) and any(has_str(x) for x in t))
+    if len(inp) == 2 and isinstance(inp[1], int):
+        r = evaluate_strleaf(state, tuple(inp)) if has_str(inp[0]) else evaluate(state, tuple(inp))
+    else:
+        r = evaluate_html_map(state, inp)
     if r["fail"]:
         print(f"VIOLATION property=C20 replay={path}")
         print("  ", r["fail"])
